@@ -189,8 +189,8 @@ impl Monitor for C20 {
                         if !ms.is_disjoint(&ns) || ms.union(&ns).copied().collect::<BTreeSet<_>>() != all {
                             bad("matching and non-matching lists do not partition the candidate list", format!("query {qi}: vs{v}"));
                         }
-                        held.push((format!("matching vs{v}"), m, rf.cands_vs(*v).to_vec()));
-                        held.push((format!("non-matching vs{v}"), nm, rf.noncands_vs(*v).to_vec()));
+                        held.push((format!("matching vs{v}"), m, ids(m)));
+                        held.push((format!("non-matching vs{v}"), nm, ids(nm)));
                     }
                     Q::Sorted(v) => {
                         fetched_pk.insert(u.vsets[*v as usize].name);
@@ -201,7 +201,7 @@ impl Monitor for C20 {
                         if fav_check(*v) {
                             fav_not_first = true;
                         }
-                        held.push((format!("sorted vs{v}"), s, rf.sorted_vs(*v).to_vec()));
+                        held.push((format!("sorted vs{v}"), s, ids(s)));
                     }
                     Q::SortedUnion(un) => {
                         for &v in &u.unions[*un as usize] {
@@ -215,7 +215,7 @@ impl Monitor for C20 {
                         if ids(s) != exp {
                             bad("sorted candidates of a union differ from the concatenation of its members", format!("query {qi}: union {un}: {:?} vs {:?}", ids(s), exp));
                         }
-                        held.push((format!("sorted union {un}"), s, exp));
+                        held.push((format!("sorted union {un}"), s, ids(s)));
                     }
                     Q::Dependencies(s) => {
                         let d = cache.get_or_cache_dependencies(SolvableId(*s)).now_or_never().unwrap().unwrap();
